@@ -1,4 +1,6 @@
 import OpenFecVerif.Proofs.DenseBits
+import OpenFecVerif.Proofs.DenseMore
+import OpenFecVerif.Proofs.Conv
 import OpenFecVerif.Gen.Popcount
 import OpenFecVerif.Proofs.Popcount
 import OpenFecVerif.Gen.Tab_of_hw8table
@@ -146,6 +148,64 @@ theorem C18_macro_words_for (nc : Nat) (h : nc + 32 < W) : Gen.vm_words_for nc =
   unfold W at h
   have : ((nc + 32) % 4294967296 + 4294967296 - 1) % 4294967296 = nc + 31 := by omega
   rw [this]
+
+/-! ### weights, column copy and the sparse/dense conversions (`Proofs/DenseMore.lean`, `Proofs/Conv.lean`) -/
+
+/-- row and column weights count the one bits of the bit-matrix reading -/
+theorem C18_weights (m : D) (i j : Nat) :
+    rowWeight m i = ((List.range m.nc).filter fun c => bit m i c).length ∧
+    colWeight m j = ((List.range m.nr).filter fun r => bit m r j).length := ⟨rowWeight_eq m i, colWeight_eq m j⟩
+
+/-- of_mod2dense_copycols: column c of the destination, in the rows of the source, becomes column `cols[c]` of the source; everything
+else of the destination is left as it was (the routine does not clear it); a destination with fewer rows is refused unchanged -/
+theorem C18_get_copycols {m r : D} (hr : WF r) (idx : List Nat) :
+    (m.nr ≤ r.nr → WF (copycols m r idx) ∧ ∀ i c, bit (copycols m r idx) i c
+      = if c < r.nc ∧ i < m.nr then decide (get m i (idx.getD c 0) ≠ 0) else bit r i c) ∧
+    (m.nr > r.nr → copycols m r idx = r) :=
+  ⟨fun hfit => bit_copycols hr hfit idx, fun h => by unfold copycols; simp [h]⟩
+
+/-- of_mod2sparse_to_dense: when the sparse matrix fits, the dense matrix holds exactly its entries; otherwise it is left unchanged -/
+theorem C18_to_dense {s : Sparse.M} {r : D} (hs : Sparse.Inv s) (hr : WF r) :
+    ((s.nr ≤ r.nr ∧ s.nc ≤ r.nc) → WF (ofSparse s r) ∧ ∀ i j, bit (ofSparse s r) i j = true ↔ Sparse.Mem s i j) ∧
+    ((s.nr > r.nr ∨ s.nc > r.nc) → ofSparse s r = r) :=
+  ⟨fun hfit => bit_ofSparse hs hr hfit, fun h => by unfold ofSparse; simp [h]⟩
+
+/-- of_mod2dense_to_sparse: when the dense matrix fits, the sparse matrix holds exactly the one bits (whatever it held before) and meets
+the sparse representation invariant; otherwise it is left unchanged -/
+theorem C18_to_sparse {m : D} {r : Sparse.M} :
+    ((m.nr ≤ r.nr ∧ m.nc ≤ r.nc) → Sparse.Inv (toSparse m r) ∧
+        ∀ i j, Sparse.Mem (toSparse m r) i j ↔ (i < m.nr ∧ j < m.nc ∧ bit m i j = true)) ∧
+    ((m.nr > r.nr ∨ m.nc > r.nc) → toSparse m r = r) :=
+  ⟨fun hfit => mem_toSparse hfit, fun h => by unfold toSparse; simp [h]⟩
+
+/-- **conversion round trip**: sparse → dense → sparse gives back exactly the entries of the original -/
+theorem C18_conversion_roundtrip {s r' : Sparse.M} {d : D} (hs : Sparse.Inv s) (hd : WF d)
+    (hfit : s.nr ≤ d.nr ∧ s.nc ≤ d.nc) (hfit' : (ofSparse s d).nr ≤ r'.nr ∧ (ofSparse s d).nc ≤ r'.nc) (i j : Nat) :
+    Sparse.Mem (toSparse (ofSparse s d) r') i j ↔ Sparse.Mem s i j := by
+  obtain ⟨_, hb⟩ := bit_ofSparse hs hd hfit
+  obtain ⟨_, hm⟩ := mem_toSparse (m := ofSparse s d) (r := r') hfit'
+  rw [hm, hb]
+  constructor
+  · exact fun h => h.2.2
+  · intro h
+    have hbd := hs.bound i j h
+    have e1 : (ofSparse s d).nr = d.nr := by
+      unfold ofSparse; rw [if_neg (by omega)]
+      exact (bit_setAll (Sparse.entries s) (clear d) (clear_wf hd).1 (by
+        intro e he
+        have := (Sparse.mem_entries s e.1 e.2).mp he
+        have hb := hs.bound e.1 e.2 this.2
+        show e.1 < d.nr ∧ e.2 < d.nc
+        omega)).2.1
+    have e2 : (ofSparse s d).nc = d.nc := by
+      unfold ofSparse; rw [if_neg (by omega)]
+      exact (bit_setAll (Sparse.entries s) (clear d) (clear_wf hd).1 (by
+        intro e he
+        have := (Sparse.mem_entries s e.1 e.2).mp he
+        have hb := hs.bound e.1 e.2 this.2
+        show e.1 < d.nr ∧ e.2 < d.nc
+        omega)).2.2.1
+    exact ⟨by omega, by omega, h⟩
 
 end Dense
 
